@@ -15,7 +15,7 @@ ASSUMPTIONS = ["oracle = the input rows themselves; geometry = exclusive prefix 
 REQUIRED_FEATURES = ["rows_of_different_dtypes", "empty_row_first", "empty_row_last", "consecutive_empty_rows", "all_rows_empty", "zero_rows",
                      "mismatch_rejected", "numpy_roundtrip", "offsets_form", "long_repr", "non_rectangular_refused", "non_contiguous_input"]
 BOUNDS = {"quick": "LV(4,3) x 9 dtypes x 2 value patterns x 5 constructors, all readers; size mismatch -1,+1,0,2x; "
-                   "from/to_numpy_array for n,m<=4 x 9 dtypes; one array of 120 cells (long repr branch)",
+                   "from/to_numpy_array for n,m<=4 x 9 dtypes; one array of 120 cells (long repr branch); rows as arrays of different dtypes (5 rotations); tuple-shape constructor; transposed / Fortran / strided numpy inputs",
           "thorough": "LV(5,3) u LV(3,5) x 9 dtypes x 3 patterns x 5 constructors; numpy round trip n,m<=5"}
 CTORS = ["flat_lens", "flat_shape", "rows_np", "rows_py_dtype", "flat_shape_tuple"]
 
